@@ -1,37 +1,58 @@
-(* C02 — pass ConstantsTransformer (program/transformer/constants_transformer.py, repaired
-   rule).  Model: PassConstants.constants; tie: harness/pass_constants.py evaluates the model
-   on Polar's input snapshot and compares with Polar's output snapshot on every run. *)
+(* C02 — pass ConstantsTransformer (program/transformer/constants_transformer.py as of /repo
+   5e78f4d).  Model: PassConstants.constants (= constants_gen RFix); tie: harness/pass_constants.py
+   evaluates the model on Polar's input snapshot and compares with Polar's output snapshot on
+   every run.  The two superseded rules (ROld: before 3e6440d; RCur: 3e6440d..5e78f4d) are kept
+   as models and refuted below. *)
 From Coq Require Import List String QArith Qcanon ZArith Bool.
 From Polar Require Import Qcx Dist Syntax Sem Types Poly PassCNBase PassConstants.
 Import ListNotations.
 Open Scope string_scope.
 
-(* For every flat program satisfying the boolean hypothesis [constants_ok], every law of the
-   continuous families, every n, every start state and every function f of the state that
-   does not read the folded variables (they disappear from the program): the expectation
-   of f at iteration n is unchanged by the pass. *)
+(* THE CURRENT RULE.  For every structurally well-formed flat program (boolean [wf_flat]: the
+   default of an initial assignment is its own variable, a single-alternative unconditional
+   initial assignment has probability 1, defaults of body assignments are body variables —
+   what Polar's constructors guarantee), every law of the continuous families, every n, every
+   start state and every f that does not read the folded variables (they disappear from the
+   program): the expectation of f at iteration n is unchanged by the pass.  No semantic
+   hypothesis is left: [constants_ok] holds by construction. *)
 Theorem C02_constants_preserves :
+  forall (law : string -> list Qc -> dist Qc) (fp : flatprog),
+    wf_flat fp = true ->
+    forall (n : nat) (s0 : state) (f : state -> Qc),
+      ignores (folded fp) f ->
+      E (frun law (constants fp) n s0) f = E (frun law fp n s0) f.
+Proof. exact constants_preserves_wf. Qed.
+Print Assumptions C02_constants_preserves.
+
+(* its two ingredients: the hypothesis the proof forces holds for the model's own choice of
+   folded variables, and the theorem under that hypothesis (any flat program) *)
+Theorem C02_constants_ok_by_construction :
+  forall fp : flatprog, wf_flat fp = true -> constants_ok fp = true.
+Proof. exact constants_ok_by_construction. Qed.
+Print Assumptions C02_constants_ok_by_construction.
+Theorem C02_constants_preserves_under_ok :
   forall (law : string -> list Qc -> dist Qc) (fp : flatprog),
     constants_ok fp = true ->
     forall (n : nat) (s0 : state) (f : state -> Qc),
       ignores (folded fp) f ->
       E (frun law (constants fp) n s0) f = E (frun law fp n s0) f.
 Proof. exact constants_preserves. Qed.
-Print Assumptions C02_constants_preserves.
+Print Assumptions C02_constants_preserves_under_ok.
 
 (* What makes the substitution right: in the ORIGINAL program, at every iteration boundary
    and in every reachable state, every folded variable equals its folded expression
-   evaluated in the current state. *)
+   evaluated in the current state.  [closed_map] (boolean: no folded value depends on a folded
+   variable) fails only for a self-referential  k = k + 1  with k used as a symbol. *)
 Theorem C02_constants_invariant :
   forall (law : string -> list Qc -> dist Qc) (fp : flatprog),
-    constants_ok fp = true ->
+    constants_ok fp = true -> closed_map (fixed fp) = true ->
     forall (n : nat) (s0 s : state), supp (frun law fp n s0) s ->
     forall (k : var) (v : expr), slookup (fixed fp) k = Some v -> s k = eval v s.
 Proof. exact constants_invariant. Qed.
 Print Assumptions C02_constants_invariant.
 
-(* The pre-repair rule (fold every unconditional single-alternative polynomial initial
-   assignment of a variable not assigned in the loop) is unsound:
+(* SUPERSEDED RULE 1 (before /repo 3e6440d: fold every unconditional single-alternative
+   polynomial initial assignment of a variable not assigned in the loop) is unsound:
    x = 3; k = x + 1; while true: x = x + k   gives E(x) = 15 instead of 11 at n = 2. *)
 Theorem C02_constants_old_behaviour_refuted :
   exists (fp : flatprog) (n : nat) (s0 : state) (f : state -> Qc),
@@ -40,32 +61,56 @@ Theorem C02_constants_old_behaviour_refuted :
 Proof. exact constants_old_refuted. Qed.
 Print Assumptions C02_constants_old_behaviour_refuted.
 
-(* ---- the hypothesis is needed: the repaired rule is still unsound without it ----
-   (a)  k = 1; y = k; k = 2; while true: y = y + k      (k re-assigned in the initial block:
-        the final value 2 is substituted into the earlier  y = k)
+(* SUPERSEDED RULE 2 (/repo 3e6440d .. 5e78f4d: additionally "the value mentions no loop
+   variable") satisfied the theorem only under [constants_ok_gen RCur], which its own choices
+   violated when the initial block re-assigns a constant:
+   (a)  k = 1; y = k; k = 2; while true: y = y + k      (the final value 2 is substituted into
+        the earlier  y = k)
    (b)  k = 1; k = Bernoulli(1/2); x = 0; while true: x = x + k   (k folded to 1 AND kept) *)
 Definition zp (q : Qc) : Z * Z := (qnum q, Zpos (qden q)).
-Example constants_ok_false_a : constants_ok wit_a = false.
+Theorem C02_constants_old_rule_without_ok_refuted :
+  exists (fp : flatprog) (n : nat) (s0 : state) (f : state -> Qc),
+    ignores (sdom (fixed_gen RCur fp)) f /\
+    E (frun no_law (constants_cur fp) n s0) f <> E (frun no_law fp n s0) f.
+Proof. exact constants_cur_without_ok_refuted. Qed.
+Print Assumptions C02_constants_old_rule_without_ok_refuted.
+Theorem C02_constants_old_rule_preserves_under_ok :
+  forall (law : string -> list Qc -> dist Qc) (fp : flatprog),
+    constants_ok_gen RCur fp = true ->
+    forall (n : nat) (s0 : state) (f : state -> Qc),
+      ignores (sdom (fixed_gen RCur fp)) f ->
+      E (frun law (constants_cur fp) n s0) f = E (frun law fp n s0) f.
+Proof. exact constants_cur_preserves. Qed.
+Print Assumptions C02_constants_old_rule_preserves_under_ok.
+
+Example old_rule_ok_false : constants_ok_gen RCur wit_a = false /\ constants_ok_gen RCur wit_b = false.
+Proof. vm_compute. split; reflexivity. Qed.
+(* the superseded model reproduces what Polar computed then: E(y) = 2n+2 instead of 2n+1,
+   E(x) = n instead of n/2 *)
+Example old_rule_wit_a_values :
+  map (fun n => (zp (E (frun no_law (constants_cur wit_a) n st0) (fun s => s "y")),
+                 zp (E (frun no_law wit_a n st0) (fun s => s "y")))) [0; 1; 2]%nat
+  = [((2, 1), (1, 1)); ((4, 1), (3, 1)); ((6, 1), (5, 1))]%Z.
 Proof. vm_compute. reflexivity. Qed.
-Example constants_ok_false_b : constants_ok wit_b = false.
+Example old_rule_wit_b_values :
+  map (fun n => (zp (E (frun no_law (constants_cur wit_b) n st0) (fun s => s "x")),
+                 zp (E (frun no_law wit_b n st0) (fun s => s "x")))) [0; 1; 2]%nat
+  = [((0, 1), (0, 1)); ((1, 1), (1, 2)); ((2, 1), (1, 1))]%Z.
 Proof. vm_compute. reflexivity. Qed.
-(* the model reproduces what Polar computes: E(y) = 2n+2 instead of 2n+1, E(x) = n instead of n/2 *)
+(* the current rule on the same witnesses: well-formed, hypothesis true, exact values *)
+Example constants_wit_wf : wf_flat wit_a = true /\ wf_flat wit_b = true /\
+                           constants_ok wit_a = true /\ constants_ok wit_b = true.
+Proof. vm_compute. repeat split; reflexivity. Qed.
 Example constants_wit_a_values :
   map (fun n => (zp (E (frun no_law (constants wit_a) n st0) (fun s => s "y")),
                  zp (E (frun no_law wit_a n st0) (fun s => s "y")))) [0; 1; 2]%nat
-  = [((2, 1), (1, 1)); ((4, 1), (3, 1)); ((6, 1), (5, 1))]%Z.
+  = [((1, 1), (1, 1)); ((3, 1), (3, 1)); ((5, 1), (5, 1))]%Z.
 Proof. vm_compute. reflexivity. Qed.
 Example constants_wit_b_values :
   map (fun n => (zp (E (frun no_law (constants wit_b) n st0) (fun s => s "x")),
                  zp (E (frun no_law wit_b n st0) (fun s => s "x")))) [0; 1; 2]%nat
-  = [((0, 1), (0, 1)); ((1, 1), (1, 2)); ((2, 1), (1, 1))]%Z.
+  = [((0, 1), (0, 1)); ((1, 2), (1, 2)); ((1, 1), (1, 1))]%Z.
 Proof. vm_compute. reflexivity. Qed.
-
-Theorem C02_constants_without_ok_refuted :
-  exists (fp : flatprog) (n : nat) (s0 : state) (f : state -> Qc),
-    ignores (folded fp) f /\ E (frun no_law (constants fp) n s0) f <> E (frun no_law fp n s0) f.
-Proof. exact constants_without_ok_refuted. Qed.
-Print Assumptions C02_constants_without_ok_refuted.
 
 (* ---- non-vacuity: the hypothesis holds on a program where the pass does all it can do ----
    a = 2; u = Bernoulli(1/2); k = a*a + 1; m = u + k; j = x + 1 (x loop variable: NOT folded);
@@ -87,8 +132,8 @@ Definition demo : flatprog :=
                  {| ga_var := "y"; ga_cond := CAtom (EVar "x") Clt (qc 3); ga_default := "y";
                     ga_rhs := RDet (EMul (EVar "y") (EVar "a")) |}] |}.
 
-Example constants_ok_demo : constants_ok demo = true.
-Proof. vm_compute. reflexivity. Qed.
+Example constants_ok_demo : wf_flat demo = true /\ constants_ok demo = true /\ closed_map (fixed demo) = true.
+Proof. vm_compute. repeat split; reflexivity. Qed.
 Example constants_demo_folded : folded demo = ["m"; "k"; "a"].
 Proof. vm_compute. reflexivity. Qed.
 Example constants_demo_shape :
@@ -104,33 +149,16 @@ Example constants_demo_nontrivial :
   zp (E (frun no_law demo 2 st0) (fun s => s "x" * s "y")%Qc) <> (0%Z, 1%Z).
 Proof. vm_compute. intros H. discriminate H. Qed.
 (* the repaired rule leaves the old counterexample alone *)
-Example constants_refute_prog_ok : constants_ok refute_prog = true /\ folded refute_prog = [].
+Example constants_refute_prog_ok : wf_flat refute_prog = true /\ folded refute_prog = [].
 Proof. vm_compute. split; reflexivity. Qed.
 
-(* ---- the rule of proposed_fixes/constants_init_reassign.diff (model: constants_fix) ----
-   same theorems for the patched rule; on the two witnesses the hypothesis then HOLDS and the
-   values are the exact ones *)
-Theorem C02_constants_fix_preserves :
-  forall (law : string -> list Qc -> dist Qc) (fp : flatprog),
-    constants_ok_gen RFix fp = true ->
-    forall (n : nat) (s0 : state) (f : state -> Qc),
-      ignores (sdom (fixed_gen RFix fp)) f ->
-      E (frun law (constants_fix fp) n s0) f = E (frun law fp n s0) f.
-Proof. exact constants_fix_preserves. Qed.
-Print Assumptions C02_constants_fix_preserves.
-
-Example constants_fix_ok_wit : constants_ok_gen RFix wit_a = true /\ constants_ok_gen RFix wit_b = true.
-Proof. vm_compute. split; reflexivity. Qed.
-Example constants_fix_wit_a_values :
-  map (fun n => (zp (E (frun no_law (constants_fix wit_a) n st0) (fun s => s "y")),
-                 zp (E (frun no_law wit_a n st0) (fun s => s "y")))) [0; 1; 2]%nat
-  = [((1, 1), (1, 1)); ((3, 1), (3, 1)); ((5, 1), (5, 1))]%Z.
+(* on a program whose initial block assigns every variable once the last two rules coincide *)
+Example constants_same_on_demo : constants demo = constants_cur demo.
 Proof. vm_compute. reflexivity. Qed.
-Example constants_fix_wit_b_values :
-  map (fun n => (zp (E (frun no_law (constants_fix wit_b) n st0) (fun s => s "x")),
-                 zp (E (frun no_law wit_b n st0) (fun s => s "x")))) [0; 1; 2]%nat
-  = [((0, 1), (0, 1)); ((1, 2), (1, 2)); ((1, 1), (1, 1))]%Z.
-Proof. vm_compute. reflexivity. Qed.
-(* on a program whose initial block assigns every variable once the two rules coincide *)
-Example constants_fix_same_on_demo : constants_fix demo = constants demo /\ constants_ok_gen RFix demo = true.
-Proof. vm_compute. split; reflexivity. Qed.
+(* the self-referential initial assignment  k = k + 1  (k read as a symbol): preserved, but the
+   invariant's extra hypothesis is false there *)
+Definition selfref : flatprog :=
+  {| fp_init := [det "x" (qc 0); det "k" (EAdd (EVar "k") (qc 1))];
+     fp_body := [det "x" (EAdd (EVar "x") (EVar "k"))] |}.
+Example selfref_ok : wf_flat selfref = true /\ folded selfref = ["k"] /\ closed_map (fixed selfref) = false.
+Proof. vm_compute. repeat split; reflexivity. Qed.
